@@ -143,6 +143,9 @@ class Rational(primitives.Expression):
     def __pow__(self, other):
         return Rational(self.Denominator**other, self.Numerator**other)
 
+    # the attributes Expression.__setstate__ restores from __getinitargs__()
+    init_arg_names = ("Numerator", "Denominator")
+
     def __getinitargs__(self):
         return (self.Numerator, self.Denominator)
 
